@@ -104,7 +104,15 @@ func runScanImplSrc(kind uint64, o rOpts, r io.Reader) Val {
 			bs = append(bs, b)
 		}
 	case 1:
-		roots, bs, openErr, endErr := carv2.VerifCarV1ReadAll(r, o.zeof, o.maxH, o.maxS)
+		var roots []cid.Cid
+		var bs []blocks.Block
+		var openErr, endErr error
+		if o.zeof && o.maxH == defaultROpts.maxH && o.maxS == defaultROpts.maxS {
+			// exactly the options of carv1.NewCarReaderWithZeroLengthSectionAsEOF: go through it
+			roots, bs, openErr, endErr = carv2.VerifC02yCarV1ReadAllZeroLenAsEOF(r)
+		} else {
+			roots, bs, openErr, endErr = carv2.VerifCarV1ReadAll(r, o.zeof, o.maxH, o.maxS)
+		}
 		if openErr != nil {
 			return VL{VT("openerr"), verr(openErr)}
 		}
